@@ -83,7 +83,7 @@ class StartWorkflowHandler(StabilizeHandler[StartWorkflow]):
 
             if execution.is_canceled:
                 logger.info("Execution %s was canceled before start", execution.id)
-                self._terminate(execution)
+                self._terminate(execution, message)
                 return
 
             # Check if start time has expired
@@ -230,12 +230,29 @@ class StartWorkflowHandler(StabilizeHandler[StartWorkflow]):
             len(initial_stages),
         )
 
-    def _terminate(self, execution: Workflow) -> None:
-        """Terminate a canceled execution."""
-        # Publish ExecutionComplete event
-        if execution.pipeline_config_id:
-            # Queue start waiting executions
-            pass
+    def _terminate(self, execution: Workflow, message: StartWorkflow) -> None:
+        """Finalize an execution that was canceled before it started.
+
+        The cancel flag may have been set without a CancelWorkflow message
+        (store.cancel(): monitor UI, purge of waiting executions) - then nobody
+        else ever finalizes the workflow and it would stay NOT_STARTED forever.
+        """
+        self.set_workflow_status(execution, WorkflowStatus.CANCELED)
+        execution.end_time = self.current_time_millis()
+        with self.repository.transaction(self.queue) as txn:
+            txn.update_workflow_status(execution)
+            if self.event_recorder:
+                self.set_event_context(execution.id)
+                self.event_recorder.record_workflow_canceled(
+                    execution,
+                    source_handler="StartWorkflowHandler",
+                )
+            if message.message_id:
+                txn.mark_message_processed(
+                    message_id=message.message_id,
+                    handler_type="StartWorkflow",
+                    execution_id=message.execution_id,
+                )
 
     def _is_after_start_time_expiry(self, execution: Workflow) -> bool:
         """Check if current time is past start time expiry."""
